@@ -2,6 +2,7 @@
 // columns of Track / PerformanceData are read by raw SQL on the captured connection and decoded with refcodec; the
 // decoded content must be the Engine layout the snapshot prescribes (predicted here, independently of the library's
 // convert_* helpers): slots, labels, offsets, the order of the colour channels, main cue, grid markers, rate / count / loudness.
+#include <optional>
 #include "c02_stored.hpp"
 
 #include "model/trackfields.hpp"
@@ -57,7 +58,15 @@ void run_stored(World& w, Agg& a)
         const std::string cid = "stored:" + sn + ":" + std::to_string(v);
         auto viol = [&](const std::string& inv, const std::string& what) { a.violation(fam + ".stored." + inv, "[" + sn + "] blob written by create_track (snapshot variant " + std::to_string(v) + "): " + what, cid); };
         auto s = variant(v, w.v2, 100 + v);
-        dj::track t = w.db.create_track(s);
+        std::optional<dj::track> created;
+        try { created = w.db.create_track(s); }
+        catch (const std::exception& e)
+        {
+            // every value in these snapshots is inside the format's domain (labels of at most 255 bytes, 8 slots): nothing to compare
+            viol("write_refused", std::string("create_track refused a snapshot whose every field the format can hold: ") + e.what());
+            continue;
+        }
+        dj::track t = *created;
         a.count("transitions");
         auto rows = w.v2 ? w.query("SELECT quickCues, loops, beatData, trackData FROM Track WHERE id = " + std::to_string(t.id()))
                          : w.query("SELECT quickCues, loops, beatData, trackData FROM perfdata.PerformanceData WHERE id = " + std::to_string(t.id()));
